@@ -518,6 +518,13 @@ def syncmix(tier, seed, avoid=()):
     progs.append(P("blocked-racer-write", SJ(3) + JJ(3), [L("write", "l"), ld("y", "sc"), L("unlockw", "l"), st("x", 2, "sc")], [fadd("x", 1, "sc")],
                    [L("read", "l"), st("y", 1, "sc"), L("unlockr", "l")]))
     progs.append(P("blocked-racer-trylock", SJ(3) + JJ(3), CS("m", st("x", 1, "sc")), CS("m", fadd("x", 2, "sc")), [L("trylock", "m"), br(1, 1, 1), L("unlock", "m")]))
+    # two readers that were both already waiting in read() when the writer lets go must still be able to overlap
+    progs.append(P("two-pending-readers-overlap", [L("write", "l"), spawn(2), spawn(3), fadd("c", 0, "sc"), L("unlockw", "l"), join(2), join(3)],
+                   [fadd("c", 1, "sc"), L("read", "l"), st("x", 1, "sc"), ld("y", "sc"), L("unlockr", "l")],
+                   [fadd("c", 1, "sc"), L("read", "l"), st("y", 1, "sc"), ld("x", "sc"), L("unlockr", "l")]))
+    progs.append(P("two-pending-lockers-exclude", [L("lock", "m"), spawn(2), spawn(3), fadd("c", 0, "sc"), L("unlock", "m"), join(2), join(3)],
+                   [fadd("c", 1, "sc"), L("lock", "m"), st("x", 1, "sc"), ld("y", "sc"), L("unlock", "m")],
+                   [fadd("c", 1, "sc"), L("lock", "m"), st("y", 1, "sc"), ld("x", "sc"), L("unlock", "m")]))
     progs.append(P("store-unpark-vs-load-park", [spawn(2), st("x", 1, "sc"), unpark(2), join(2)], [ld("x", "sc"), L("park")]))
     progs.append(P("locked-write-unpark-vs-locked-read-park", [spawn(2), spawn(3)] + CS("m", st("x", 1, "sc")) + [unpark(2), unpark(3), join(2), join(3)],
                    CS("m", ld("x", "sc")) + [L("park")], CS("m", ld("x", "sc")) + [L("park")]))
@@ -783,7 +790,10 @@ def blocking(tier, seed):
 
 
 def lock_shapes():
-    out = [p for p in blocking_shapes() if p["name"] in ("reader-waits-for-reader", "reader-joins-reader", "reader-joins-tryreader",
+    out = [P("two-pending-readers-overlap", [L("write", "l"), spawn(2), spawn(3), fadd("c", 0, "sc"), L("unlockw", "l"), join(2), join(3)],
+             [fadd("c", 1, "sc"), L("read", "l"), st("x", 1, "sc"), ld("y", "sc"), L("unlockr", "l")],
+             [fadd("c", 1, "sc"), L("read", "l"), st("y", 1, "sc"), ld("x", "sc"), L("unlockr", "l")])]
+    out += [p for p in blocking_shapes() if p["name"] in ("reader-waits-for-reader", "reader-joins-reader", "reader-joins-tryreader",
                                                           "rw-readers-only-ok", "rw-read-write-inversion")]
     A = out.append
     # a refused try_* must leave the lock as it is: every later attempt while the holder is still inside is refused too
@@ -971,6 +981,16 @@ def arc_shapes():
     A(P("drop-after-join", SJ(2) + JJ(2) + [L("acount", "a1"), D("a1")], [rd("pc"), D("a2")], [rd("pc"), D("a3")], arcs=a3))
     A(P("clone-in-thread", [spawn(2), join(2), L("acount", "a1"), D("a1")], [L("aclone", "a2", o2="b2"), L("acount", "b2"), D("b2"), D("a2")], arcs=a2))
     A(P("count-vs-drop", [spawn(2), L("acount", "a1"), join(2), D("a1")], [D("a2")], arcs=a2))
+    # an inspection, then a decrement (by anybody), then a concurrent clone in a thread that keeps its handles: the clone
+    # still races with the inspection (a decrement does not stand in for the inspections it follows)
+    A(P("count-then-remote-drop-vs-keeping-clone", [spawn(2), spawn(3), L("acount", "a1"), join(2), join(3), D("a3"), D("b3"), D("a1")],
+        [D("a2")], [L("aclone", "a3", o2="b3")], arcs=a3))
+    A(P("count-then-getmut-vs-keeping-clone", [spawn(2), L("acount", "a1"), L("agetmut", "a1"), join(2), D("a2"), D("b2"), D("a1")],
+        [L("aclone", "a2", o2="b2")], arcs=a2))
+    A(P("count-then-own-drop-vs-keeping-clone", [spawn(2), L("aclone", "a1", o2="b1"), L("acount", "a1"), D("b1"), join(2), D("a2"), D("b2"), D("a1")],
+        [L("aclone", "a2", o2="b2")], arcs=a2))
+    A(P("count-then-unwrap-vs-keeping-clone", [spawn(2), L("acount", "a1"), join(2), D("a2"), D("b2"), L("aunwrap", "a1")],
+        [L("aclone", "a2", o2="b2")], arcs=a2))
     A(P("count-vs-clone", [spawn(2), L("acount", "a1"), join(2), D("a1")], [L("aclone", "a2", o2="b2"), D("b2"), D("a2")], arcs=a2))
     A(P("getmut-vs-drop", [spawn(2), L("agetmut", "a1"), join(2), L("agetmut", "a1"), D("a1")], [rd("pc"), D("a2")], arcs=a2))
     A(P("unwrap-vs-drop", [spawn(2), L("aunwrap", "a1"), br(1, 0, 1), D("a1"), join(2)], [rd("pc"), D("a2")], arcs=a2))
@@ -1377,6 +1397,10 @@ def iso_base():
         P("iso-await", SJ(2) + JJ(2), [st("y", 1), st("x", 1, "rel")], [await_("x", "acq"), ld("y")]),
         P("iso-scfence-stale", [spawn(2), fence("sc"), ld("f"), ld("x"), join(2)], [st("x", 1), st("f", 1), fence("sc")]),
         P("iso-scfence-3", SJ(3) + JJ(3), [st("x", 1), fence("sc"), ld("y")], [st("y", 1), fence("sc"), ld("x")], [fence("sc"), ld("x"), ld("y")]),
+        # the FIRST object the model creates (atoms are created in name order) is an atomic that main reads after the join;
+        # in a later iteration main fences before it has synchronised with anything: only this iteration's stores count
+        P("iso-first-object-flag", [spawn(2), ld("x"), fence("acq"), ld("d"), join(2), ld("a", "acq")], [st("d", 1), st("x", 1), st("a", 1, "rel")]),
+        P("iso-first-object-flag-thread", SJ(2) + JJ(2), [st("d", 1), st("x", 1), st("a", 1, "rel")], [ld("x"), fence("acq"), ld("d"), await_("a", "acq")]),
         # a thread yields while every other thread is blocked (it is rescheduled still yielded), then unblocks one
         P("iso-yield-while-others-blocked", [L("lock", "m"), spawn(2), I("yield"), I("yield"), L("unlock", "m"), L("lock", "m"), ld("x"), L("unlock", "m"), join(2)],
           [ld("y"), L("lock", "m"), st("x", 1), L("unlock", "m")]),
